@@ -160,7 +160,7 @@ class Report:
             print('INFO: %s' % m)
         code = 0
         replay_dir = os.path.join(VERIF, 'evidence', 'replay')
-        if os.path.realpath(s.repo_root) != os.path.realpath(DEFAULT_REPO):
+        if os.path.realpath(s.repo_root) != os.path.realpath(DEFAULT_REPO) or os.environ.get('VERIF_NO_EVIDENCE'):
             replay_dir = os.environ.get('VERIF_REPLAY_DIR', '/var/tmp/verif-replay')
         if fresh:
             os.makedirs(replay_dir, exist_ok=True)
@@ -217,6 +217,6 @@ class Report:
                   assumptions=s.assumptions, wall_s=round(time.time() - s.t0, 3), violations=nviol)
         os.makedirs(os.path.join(VERIF, 'evidence'), exist_ok=True)
         # evidence is only written for the registered repository (self-tests on scratch copies must not overwrite it)
-        if os.path.realpath(s.repo_root) == os.path.realpath(DEFAULT_REPO) or os.environ.get('VERIF_WRITE_EVIDENCE'):
+        if (os.path.realpath(s.repo_root) == os.path.realpath(DEFAULT_REPO) and not os.environ.get('VERIF_NO_EVIDENCE')) or os.environ.get('VERIF_WRITE_EVIDENCE'):
             with open(os.path.join(VERIF, 'evidence', '%s.json' % s.prop), 'w') as fp:
                 json.dump(ev, fp, indent=1, default=str)
